@@ -4,6 +4,9 @@ This module provides request handler classes for processing Gemini requests
 and generating responses, including Titan upload handlers.
 """
 
+import contextlib
+import os
+import secrets
 from abc import ABC, abstractmethod
 from pathlib import Path
 from typing import TYPE_CHECKING
@@ -383,7 +386,18 @@ class FileUploadHandler(UploadHandler):
         # 6. Save file
         try:
             target.parent.mkdir(parents=True, exist_ok=True)
-            target.write_bytes(request.content)
+            # Write to a temporary file next to the target and rename it into
+            # place: a failure part-way (disk full, I/O error) must not leave a
+            # truncated file behind or damage an existing one
+            tmp_path = target.with_name(f".{target.name}.{secrets.token_hex(8)}.tmp")
+            try:
+                with open(tmp_path, "xb") as tmp_file:
+                    tmp_file.write(request.content)
+                os.replace(tmp_path, target)
+            except BaseException:
+                with contextlib.suppress(OSError):
+                    tmp_path.unlink()
+                raise
 
             return GeminiResponse(
                 status=StatusCode.SUCCESS.value,
